@@ -36,7 +36,7 @@ class VirtualToReal:
       self._import_field_references(previous)
       self._update_field_backreferences(previous)
     else:
-      self._initialize_references()
+      self._initialize_references_or_take_back()
     self._import_nonfield_references(previous)
     self._update_nonfield_backreferences(previous)
 
